@@ -16,8 +16,11 @@ pub const REGISTRY: &[(&str, RunFn)] = &[("C08L", c08l::run), ("C09", c09::run),
 
 /// Hidden subcommands (`lv __xyz ...`) used by checks that need a fresh
 /// process linking the lalrpop library.
-pub fn hidden_subcommand(_name: &str, _args: &[String]) -> Option<i32> {
-    None
+pub fn hidden_subcommand(name: &str, args: &[String]) -> Option<i32> {
+    match name {
+        "__lexrun" => Some(c08l::hidden_lexrun(args)),
+        _ => None,
+    }
 }
 
 /// Shared boilerplate: load a replay file or fail with exit 2.
